@@ -305,7 +305,7 @@ impl Module for M {
          seeded random polylines / triangles within +-60; offsets rotate through 7 axis-crossing values (C07: non-zero ones); \
          then the display-scale / wide-stroke slice: widths 13,20,33,34,40,64,100,128 (C19: width 1) on fixed small shapes x all \
          alignments and on seeded random polylines (2..=6 vertices) / triangles (alignments rotating) with vertices within +-100, \
-         +-300, +-1024 or a 150 px shape placed anywhere within +-1024 (quick 24 + 48 fixed and 42 + 42 random ops, thorough 552 + 550 random), half of the offsets \
+         +-300, +-1024 or a 150 px shape placed anywhere within +-1024 (quick 24 + 48 fixed and 42 + 42 random ops, thorough 346 + 345 random), half of the offsets \
          moving the shape onto the origin (counters polyline:wide:*, triangle:wide:*, *:display-scale:*). \
          The counters polyline:join:*, triangle:join:*, polyline:skeleton-segments, triangle:collapsed-inside report the join kinds \
          exercised (computed by a port of the private join code and compared with the Lean model's classification in the result line). \
@@ -652,7 +652,7 @@ fn wide_classes(tier: Tier) -> [(&'static str, usize, usize); 4] {
     if tier == Tier::Quick {
         [("near", 20, 20), ("far", 16, 16), ("mid", 5, 5), ("span", 1, 1)]
     } else {
-        [("near", 240, 240), ("far", 240, 240), ("mid", 60, 60), ("span", 12, 10)]
+        [("near", 150, 150), ("far", 150, 150), ("mid", 40, 40), ("span", 6, 5)]
     }
 }
 
